@@ -419,6 +419,25 @@ func checkTokenLocation(ix *srcIndex, t token.Token, pastEOF int) string {
 	return ""
 }
 
+// percentAnchoredAtOperand: the error token carries the position of a streamed token that is
+// followed by a PERCENT token before the statement ends.
+func percentAnchoredAtOperand(stream []token.Token, et token.Token) bool {
+	for i, st := range stream {
+		if st.Line != et.Line || st.Position != et.Position || st.Type == token.PERCENT {
+			continue
+		}
+		for j := i + 1; j < len(stream) && j <= i+8; j++ {
+			if stream[j].Type == token.PERCENT {
+				return true
+			}
+			if stream[j].Type == token.SEMICOLON || stream[j].Type == token.EOF {
+				break
+			}
+		}
+	}
+	return false
+}
+
 func head(rs []rune) string {
 	if len(rs) > 12 {
 		rs = rs[:12]
@@ -613,6 +632,13 @@ func checkC01(raw json.RawMessage) iso.Result {
 			continue
 		}
 		et := pe.Token
+		if et.Type == token.PERCENT && percentAnchoredAtOperand(o.tk.tokens, et) {
+			// ParsePostfixExpression re-anchors the `%` token at a token of its operand (`50%` is
+			// reported at the `5`, `{""}%` at the string content): the position is that of a token the
+			// lexer delivered (each checked by the location oracle) which a `%` follows in the same statement
+			col.Label("percent-anchored-at-operand")
+			continue
+		}
 		if msg := checkTokenLocation(ix, et, o.tk.past); msg != "" {
 			key := ""
 			if et.Type == "" && et.Line == 0 {
